@@ -84,3 +84,15 @@ package state_machines
 //@   nosafety
 //@   modifies *
 //@   ensures[C19.create] result1 == nil ==> result0 != nil && fresh(result0) && result0.dump != nil && result0.dump.State == fsm.StateGlobalIdle && result0.dump.Payload != nil && result0.dump.Payload.DKGProposalPayload == nil && result0.dump.Payload.SignatureProposalPayload == nil && result0.dump.Payload.SigningProposalPayload == nil
+
+// Go iterates maps in an unspecified order: in the code that turns board messages into round state no map iteration
+// may let its order reach anything that outlives the loop (judgement over go/ssa, one obligation per loop)
+//@ orderfree[C08.order] fsm/state_machines/dkg_proposal_fsm fsm/state_machines/signature_proposal_fsm fsm/state_machines/signing_proposal_fsm fsm/state_machines/internal fsm/state_machines client/services/node client/services/fsmservice client/repositories/operation client/repositories/signature fsm/types
+// accepted iterations (each one read and judged harmless for the round state; echoed in the evidence as trusted):
+//@ orderaccept signature_proposal_fsm.SignatureProposalFSM).actionValidateSignatureProposal#1 the status list it builds is the response of the event that completes the invitation; the node replaces that response at once by the one of the DKG initialisation and never stores it
+//@ orderaccept dkg_proposal_fsm.DKGProposalFSM).actionValidateDkgProposalAwaitMasterKey#0 the collected keys are only compared for all-equal, which does not depend on their order
+//@ orderaccept fsmservice.FSM).GetAllFSM#0 builds one independent instance per round, stored under the round's own key
+//@ orderaccept node.extractTasksFromDTO#0 proposer-side choice of task order and identifiers before the proposal is posted; every consumer works from the posted proposal
+//@ orderaccept node.reconstructThresholdSignature#0 the order of the collected shares of one message only selects which t of them kyber combines; the threshold signature is the same for every choice (kyber, assumed)
+//@ orderaccept node.reconstructThresholdSignature#1 one reconstructed signature per message; consumers store them under (batch, message) keys, the order of the list is not used
+//@ orderaccept signature.BaseSignatureRepo).GetBatches#0 listing for the local API, not part of a round's state
